@@ -227,6 +227,8 @@ func checkC19(p *Program, r *Report) {
 	// ---- session typestate (shared with C10): the renderer decodes every node into one reused
 	// session; a label decoder that reads a field left over from the previous node renders wrong labels
 	checkSessionTypestate(p, r, "C19.session-valid")
+	// ---- a loaded trie renders what was loaded: every field String() reads is replaced by every load
+	checkFreshFor(p, r, "C19.fresh", str, "String", 1)
 }
 
 func isU64Slice(t types.Type) bool {
